@@ -721,6 +721,21 @@ pub fn hook_link_constraints(constraints: Vec<crate::intermediate::constraints::
     tld.link_constraint_reference(tlds)?;
     match tld { ToplevelDefinition::Type(ToplevelTypeDefinition { ty: ASN1Type::Boolean(b), .. }) => Ok(b.constraints), _ => unreachable!() }
 }
+/// accessors for the native replay of the Verus unit GEN_emission (token text, white-space as proc_macro2 prints it)
+#[cfg(not(kani))]
+pub fn hook_format_tag(tag: Option<&AsnTag>) -> String { crate::generator::rasn::Rasn::default().format_tag(tag).to_string() }
+#[cfg(not(kani))]
+pub fn hook_width_tokens(t: crate::intermediate::IntegerType) -> String { use quote::ToTokens; let mut ts = proc_macro2::TokenStream::new(); t.to_tokens(&mut ts); ts.to_string() }
+#[cfg(not(kani))]
+pub fn hook_format_range_annotations(signed: bool, constraints: &[crate::intermediate::constraints::Constraint]) -> Result<String, String> {
+    crate::generator::rasn::Rasn::default().format_range_annotations(signed, constraints).map(|t| t.to_string()).map_err(|e| format!("{e:?}"))
+}
+/// (min, max, extensible, is_size) of the range per_visible_range_constraints folds from a constraint list
+#[cfg(not(kani))]
+pub fn hook_per_visible_range(signed: bool, constraints: &[crate::intermediate::constraints::Constraint]) -> Result<(Option<i128>, Option<i128>, bool, bool), String> {
+    crate::intermediate::encoding_rules::per_visible::per_visible_range_constraints(signed, constraints)
+        .map(|c| (c.min::<i128>(), c.max::<i128>(), c.is_extensible(), c.is_size_constraint())).map_err(|e| format!("{e:?}"))
+}
 pub fn hook_type_is_const(ty: &ASN1Type) -> bool { ty.is_const_type() }
 pub fn hook_type_has_reference(ty: &ASN1Type) -> bool { ty.contains_constraint_reference() }
 pub fn hook_is_elsewhere_declared(v: &ASN1Value) -> bool { v.is_elsewhere_declared() }
